@@ -418,3 +418,97 @@ def namedtuples_as_tuples(tree, nts, returns):
     if n[0]:
         ast.fix_missing_locations(tree)
     return n[0]
+
+
+
+# ------------------------------------------------------------------------------------------------------------------
+# tuple-valued parameters unpacked at entry: `def f(x, pair): a, b = pair; ...` called as `f(x, (u, v))`  ->  `def f(x, a, b)`, `f(x, u, v)`
+
+def tuple_param_table(mods):
+    """function name -> {parameter: [names it is unpacked into]} for functions with a repository-wide unique name whose body starts by
+    unpacking the parameter (used nowhere else) and whose every call hands a literal tuple of that length over for it"""
+    defs, calls = {}, {}
+    for mod in mods:
+        for f in [n for n in ast.walk(mod) if isinstance(n, ast.FunctionDef)]:
+            defs.setdefault(f.name, []).append(f)
+        for c in [n for n in ast.walk(mod) if isinstance(n, ast.Call)]:
+            nm = c.func.attr if isinstance(c.func, ast.Attribute) else (c.func.id if isinstance(c.func, ast.Name) else None)
+            if nm:
+                calls.setdefault(nm, []).append(c)
+    out = {}
+    for name, fs in defs.items():
+        if len(fs) != 1 or name.startswith("__") or name not in calls:
+            continue
+        fn = fs[0]
+        a = fn.args
+        if a.vararg or a.kwarg or a.kwonlyargs or a.posonlyargs or a.defaults:
+            continue
+        params = [x.arg for x in a.args]
+        body = [s_ for s_ in fn.body if not (isinstance(s_, ast.Expr) and isinstance(s_.value, ast.Constant))]
+        found = {}
+        for st in body:
+            if isinstance(st, ast.Assign) and len(st.targets) == 1 and isinstance(st.targets[0], ast.Tuple) and isinstance(st.value, ast.Name) \
+                    and st.value.id in params and all(isinstance(e, ast.Name) for e in st.targets[0].elts):
+                uses = [n for n in ast.walk(fn) if isinstance(n, ast.Name) and n.id == st.value.id]
+                if len(uses) == 1 and not ({e.id for e in st.targets[0].elts} & set(params)):
+                    found[st.value.id] = [e.id for e in st.targets[0].elts]
+            else:
+                break          # only the leading statements
+        if not found:
+            continue
+        static = any(isinstance(d, ast.Name) and d.id == "staticmethod" for d in fn.decorator_list)
+        bound_params = params[1:] if (params and params[0] in ("self", "cls") and not static) else params
+        ok = True
+        for c in calls[name]:
+            if any(isinstance(x, ast.Starred) for x in c.args) or any(k.arg is None for k in c.keywords):
+                ok = False
+                break
+            got = dict(zip(bound_params, c.args))
+            got.update({k.arg: k.value for k in c.keywords})
+            for p_, names in found.items():
+                v = got.get(p_)
+                if not (isinstance(v, ast.Tuple) and len(v.elts) == len(names) and not any(isinstance(e, ast.Starred) for e in v.elts)):
+                    ok = False
+        if ok:
+            out[name] = found
+            out[("__params__", name)] = bound_params
+    return out
+
+
+def flatten_tuple_params(tree, table):
+    """rewrite definitions and calls in place; -> number of flattened parameters"""
+    if not table:
+        return 0
+    n = 0
+    for fn in [x for x in ast.walk(tree) if isinstance(x, ast.FunctionDef) and x.name in table]:
+        found = table[fn.name]
+        new_args = []
+        for x in fn.args.args:
+            if x.arg in found:
+                new_args += [ast.copy_location(ast.arg(arg=nm), x) for nm in found[x.arg]]
+                n += 1
+            else:
+                new_args.append(x)
+        fn.args.args = new_args
+        fn.body = [s_ for s_ in fn.body if not (isinstance(s_, ast.Assign) and isinstance(s_.value, ast.Name) and s_.value.id in found
+                                                 and isinstance(s_.targets[0], ast.Tuple))]
+    defs_here = {}
+    for c in [x for x in ast.walk(tree) if isinstance(x, ast.Call)]:
+        nm = c.func.attr if isinstance(c.func, ast.Attribute) else (c.func.id if isinstance(c.func, ast.Name) else None)
+        if nm in table:
+            found = table[nm]
+            c.keywords = [k2 for k in c.keywords for k2 in (
+                [ast.keyword(arg=nm2, value=v2) for nm2, v2 in zip(found[k.arg], k.value.elts)] if k.arg in found and isinstance(k.value, ast.Tuple) else [k])]
+            # positional tuples: their position is known from the definition's (old) parameter list, kept in `_old_params`
+            old = table.get(("__params__", nm))
+            if old:
+                new_pos = []
+                for p_, v in zip(old, c.args):
+                    if p_ in found and isinstance(v, ast.Tuple):
+                        new_pos += list(v.elts)
+                    else:
+                        new_pos.append(v)
+                c.args = new_pos + list(c.args[len(old):])
+    if n:
+        ast.fix_missing_locations(tree)
+    return n
